@@ -154,4 +154,46 @@ theorem presolveLoop_time_le (tracked : List (Nat × Watch)) (ref : Links) (k : 
         · rw [e2, runList_kinds, write_kinds]; exact hkinds
         · intro x hx hh; exact hint x (List.mem_cons_of_mem _ (hsub x hx)) hh
 
+/-- the accepted time is `t` or `t − back` of one of the due entries -/
+theorem presolveLoop_time_cases (tracked : List (Nat × Watch)) (ref : Links) :
+    ∀ (fuel : Nat) (sorted : List Due) (ls : Links) (t : Int),
+      (presolveLoop tracked ref fuel sorted ls t).2 = t ∨ ∃ d ∈ sorted, (presolveLoop tracked ref fuel sorted ls t).2 = t - d.back := by
+  intro fuel
+  induction fuel with
+  | zero => intro sorted ls t; left; simp [presolveLoop]
+  | succ n ih =>
+    intro sorted ls t
+    cases sorted with
+    | nil => left; simp [presolveLoop]
+    | cons e rest =>
+      obtain ⟨pre, e1, _, _⟩ := runGroup_spec e.back rest (write ls e.ctl.act)
+      unfold presolveLoop
+      by_cases hch : changed tracked ref (runGroup e.back rest (write ls e.ctl.act)).1 = true
+      · simp only [hch, if_true]; right; exact ⟨e, List.mem_cons_self, rfl⟩
+      · simp only [hch]
+        rcases ih (runGroup e.back rest (write ls e.ctl.act)).2 (runGroup e.back rest (write ls e.ctl.act)).1 t with h | ⟨d, hd, h⟩
+        · left; exact h
+        · right
+          exact ⟨d, List.mem_cons_of_mem _ (by rw [e1]; exact List.mem_append_right _ hd), h⟩
+
+/-- with non-negative backtracks the presolve pass never accepts a time AFTER the tentative one -/
+theorem presolve_time_le_t (tracked : List (Nat × Watch)) (first : Bool) (due : List Due) (ls : Links) (t : Int)
+    (hb : ∀ d ∈ due, 0 ≤ d.back) : (presolve tracked first due ls t).2 ≤ t := by
+  unfold presolve
+  simp only
+  have hperm : ∀ x, x ∈ sortDue due ↔ x ∈ due := fun x => by
+    unfold sortDue
+    rw [(sortBy_perm _ _).mem_iff, (sortBy_perm _ _).mem_iff]
+  rcases presolveLoop_time_cases tracked ls _ _ ls t with h | ⟨d, hd, h⟩
+  · rw [h]
+  · rw [h]
+    cases first with
+    | false =>
+      simp only [Bool.false_eq_true, if_false] at hd
+      have := hb d ((hperm d).mp hd); omega
+    | true =>
+      simp only [if_true] at hd
+      obtain ⟨d', _, e⟩ := List.mem_map.mp hd
+      rw [← e]; simp
+
 end Wntr.Controls
